@@ -329,6 +329,9 @@ func (e Engine) Generate(r *core.Rand, tier core.Tier) *core.Scenario {
 		}
 		for i, n := 0, r.Pick([]int{4, 3, 2, 1}); i < n; i++ {
 			b.Steps = append(b.Steps, Step{Replica: r.Intn(nrep), Call: r.Range(1, 12), Kind: []string{"checktx", "recheck", "query", "prune", "query", "estimate"}[r.Intn(6)], Arg: r.Intn(1000)})
+			if e.Prop == "C06" && i == 0 {
+				b.Steps[len(b.Steps)-1].Kind = "prune" // chain-level history runs: a pruner step in every block
+			}
 		}
 		sc.Ops = append(sc.Ops, core.MustJSON(Op{K: "block", Block: b}))
 	}
@@ -339,7 +342,7 @@ func (e Engine) Generate(r *core.Rand, tier core.Tier) *core.Scenario {
 	// among them the escrow account's own entity (and that entity as a delegator elsewhere), reclaim
 	// in the same epoch, so that many debonding delegations touching the same accounts from both
 	// sides complete at one epoch transition. Own PRNG: the rest of the scenario is unchanged.
-	if wl == nil && (profile == "delegation" || e.Prop == "C15") {
+	if wl == nil && (profile == "delegation" || e.Prop == "C15" || ((e.Prop == "C10" || e.Prop == "C05") && core.NewRand(core.Derive(core.Hash64([]byte(k.Gen.Salt)), "debond-campaign-sel", 0)).Chance(1, 3))) {
 		addDebondCampaigns(core.NewRand(core.Derive(core.Hash64([]byte(k.Gen.Salt)), "debond-campaign", 0)), sc, &k)
 	}
 	// Nodes that join by state sync (statesync.go). The choices come from a PRNG of their own, so
@@ -349,6 +352,8 @@ func (e Engine) Generate(r *core.Rand, tier core.Tier) *core.Scenario {
 		switch {
 		case e.Prop == "C12":
 			addSyncOps(sr, sc, sr.Range(1, 2), false)
+		case e.Prop == "C06" && sr.Chance(1, 2):
+			addSyncOps(sr, sc, 1, false)
 		case e.Prop == "C07" && sr.Chance(1, 3):
 			addSyncOps(sr, sc, 1, true)
 		case e.Prop == "C01" && sr.Chance(1, 3):
@@ -445,6 +450,10 @@ func addDebondCampaigns(r *core.Rand, sc *core.Scenario, k *ChainKnobs) {
 		blk()
 		// The reclaims of one epoch: the delegators, the entity from itself, the entity elsewhere.
 		for _, d := range ds {
+			if r.Chance(1, 3) {
+				tx("reclaim", d, x, AmtAll) // the whole delegation
+				continue
+			}
 			tx("reclaim", d, x, r.Pick([]int{2, 1, 1})*r.Range(100, 500))
 			if r.Chance(1, 3) {
 				tx("reclaim", d, x, r.Range(100, 1000)) // a second reclaim in the same epoch
@@ -455,6 +464,16 @@ func addDebondCampaigns(r *core.Rand, sc *core.Scenario, k *ChainKnobs) {
 			tx("reclaim", x, y, r.Range(100, 1000))
 		}
 		blk()
+		if r.Chance(1, 2) {
+			// A proposal on which the entity and its (former) delegators vote against each other.
+			ops = append(ops, Op{K: "tx", Tx: &TxOp{Kind: "propose", From: r.Intn(ents), Arg: r.Intn(64), Fee: uint64(r.Range(0, 5))}})
+			blk()
+			ops = append(ops, Op{K: "tx", Tx: &TxOp{Kind: "vote", From: x, To: r.Pick([]int{3, 1, 1}), Arg: 1000}})
+			for _, d := range ds {
+				ops = append(ops, Op{K: "tx", Tx: &TxOp{Kind: "vote", From: d, To: r.Pick([]int{1, 3, 1}), Arg: 1000}})
+			}
+			blk()
+		}
 		at[blocks[r.Intn(len(blocks))]] = ops
 	}
 	var out = sc.Ops[:0:0]
